@@ -325,6 +325,12 @@ def run_molecule(chk: Check, spec, tid0):
     with in_dir(d):
         try:
             with quiet():
+                # every other hand-over is prepared twice in the same process from the same pyscf objects (a user who
+                # re-runs the preparation cell, or prepares the mean field and then the coupled-cluster object): the
+                # second preparation must describe the same problem - nothing may be carried over from the first
+                if spec.get("prep_twice"):
+                    pyscf_interface.prep_afqmc(P["mf"] if spec["integrals"] != "custom" else obj,
+                                               **{k_: v_ for k_, v_ in kw.items()})
                 pyscf_interface.prep_afqmc(obj, **kw)
         except Exception as e:
             return [({"id": tid0, "crash": f"prep_afqmc: {type(e).__name__}: {e}"[:300]}, spec)], None
@@ -396,6 +402,8 @@ def molecule_plan(chk: Check):
     add("df", "LiH", df=True, nfrozen=1, chol_cut=1e-8)
     add("df", "OH", spin=1, mf="rohf", df=True, nfrozen=1, trial="uhf", walker_type="uhf", chol_cut=1e-8)
     add("custom-basis", "OH", spin=1, mf="rohf", trial="uhf", walker_type="uhf", basis_coeff="lowdin", chol_cut=1e-5)
+    for i_, sp_ in enumerate(S):
+        sp_["prep_twice"] = i_ % 2 == 0
     if chk.tier == "quick":
         return S
     cuts = [1e-4, 1e-5, 1e-6, 1e-7]
@@ -437,6 +445,8 @@ def molecule_plan(chk: Check):
         kind = "rhf" if m != "H3" else str(rng.choice(["rohf", "uhf"]))
         add("custom-integrals", m, spin=1 if m == "H3" else 0, mf=kind, trial="rhf" if kind == "rhf" else "uhf", integrals="custom",
             basis_coeff=str(rng.choice(["eye", "mo"])), chol_cut=cut(), walker_type=wt(kind))
+    for i_, sp_ in enumerate(S):
+        sp_.setdefault("prep_twice", i_ % 2 == 0)
     return S
 
 
